@@ -84,11 +84,20 @@ class Sys(e2.DevSys):
             acts.append(("stopoffer", i))
         # one SD message with two entries for the same service: the last one counts
         acts += [("offer+stop", 0), ("stop+offer", 0, 3)]
-        if not any(e[2] == "restart" for e in self.events):
+        if not any(e[2] == "stop" for e in self.events):
+            acts.append(("stop", -1))  # stop() of the discovery part: nothing is sent any more
+        if sum(1 for e in self.events if e[2] == "restart") < 2 and not any(e[2] == "stop" for e in self.events):
             acts.append(("restart", -1))  # stop() and start() of the discovery part: the schedule begins again
         return acts
 
     def do(self, act):
+        if act[0] == "stop":
+            now = self.loop.time()
+            self.events.append((now, self.cur[1], "stop", -1, 0))
+            self.prot.discovery.stop()
+            r = self.loop._clock_resolution
+            self.rounds = [T for T in self.rounds if T < now - r]
+            return
         if act[0] == "restart":
             now = self.loop.time()
             self.events.append((now, self.cur[1], "restart", -1, 0))
@@ -98,7 +107,7 @@ class Sys(e2.DevSys):
             # task, before or after the timer fired), a new one begins
             r = self.loop._clock_resolution
             self.rounds = [T for T in self.rounds if T < now - r]
-            self.restart_index = len(self.rounds)
+            self.restart_indexes = {i for i in getattr(self, "restart_indexes", set()) if i < len(self.rounds)} | {len(self.rounds)}
             nxt = now + self.d
             self.rounds.append(nxt)
             for i in range(self.cfg["reps"]):
@@ -140,7 +149,7 @@ class Sys(e2.DevSys):
             before = t < T - r or abs(t - T) < r
             if not before:
                 continue
-            if kind == "restart":
+            if kind in ("restart", "stop"):
                 continue
             if kind == "watch":
                 watched.append(filters(self.s, self.s2)[i])
@@ -163,7 +172,7 @@ class Sys(e2.DevSys):
         for n, T in enumerate(self.rounds):
             if T > horizon:
                 break
-            if n == getattr(self, "restart_index", None):
+            if n in getattr(self, "restart_indexes", ()):
                 ended = False  # a fresh task
             if ended:
                 continue
@@ -236,12 +245,15 @@ def reoffer_triple(cfg, devs, p, k):
             and p[0] - devs[0][0] < 1.0 and devs[0][1] == devs[1][1] == p[1] == "pre")
 
 
-K1_ONLY = ("offer+stop", "stop+offer", "restart")
+K1_ONLY = ("offer+stop", "stop+offer", "restart", "stop")
 
 
 def restrict(thorough, cfg, devs, p, k):
     if k <= 1:
         return True
+    if k == 2 and devs[0][2][0] == "restart" and p[2][0] in ("stop", "restart") and len(cfg["watched"]) == 1 \
+            and cfg["reps"] in (1, 3) and cfg["frac"] == 0.0:
+        return True  # a restart, then a stop or another restart: the first restart must not leave anything behind
     if not thorough and (p[2][0] in K1_ONLY or any(d[2][0] in K1_ONLY for d in devs)):
         return False  # quick tier: two-entry messages and restarts as single disturbances only
     if reoffer_triple(cfg, devs, p, k):
